@@ -111,6 +111,31 @@ class FakeNet:
         return [(_socket.AF_INET, _socket.SOCK_STREAM, 6, '', (host, port))]
 
 
+class IpShim:
+    """ipaddress stand-in for symbolic host text: text without a colon (resp. dot) is never an IPv6 (IPv4) literal - decided by the solver on the
+    symbolic characters; anything else is concretised and handed to the real module."""
+    import ipaddress as _ip
+    AddressValueError = _ip.AddressValueError
+
+    @classmethod
+    def _conc(cls, a, ch, real):
+        import zx
+        if isinstance(a, str):
+            return real(a)
+        from zx.instrument import zx_in
+        if not bool(zx_in(ch, a)):
+            raise cls._ip.AddressValueError('no %r in address' % ch)
+        return real(zx.shims.concretize_str(a))
+
+    @classmethod
+    def IPv6Address(cls, a):
+        return cls._conc(a, ':', cls._ip.IPv6Address)
+
+    @classmethod
+    def IPv4Address(cls, a):
+        return cls._conc(a, '.', cls._ip.IPv4Address)
+
+
 @contextlib.contextmanager
 def patched(obj, **kw):
     old = {k: getattr(obj, k) for k in kw}
